@@ -108,6 +108,16 @@ def h_missing_new(B, n=4, p=2, k=2, labels=(100, 100, 101), missing=(1,)):
         B.eq("non-missing samples: same scores as when transformed alone", tr.isel(time=rows), alone)
 
 
+def h_index_kind_mismatch(B, p=2):
+    """model fitted on a stacked (MultiIndex) sample dimension, new data with a plain sample index of the same name"""
+    X, dim, fd = M.make_input(B, "stacked-sample", 4, p, False, {})
+    model = M.single("EOF", n_modes=2, solver="full").fit(X, dim)
+    Xn = da2d(B, "xn", 2, p, scoords=[100, 101])
+    tr = B.completes("transform(new data with a plain sample index) on a model fitted with a MultiIndex sample dimension runs", lambda: model.transform(Xn))
+    if tr is not None:
+        B.check("sample labels are those of the new data", list(tr["time"].values) == [100, 101], str(list(tr["time"].values)))
+
+
 def h_multiindex(B, cls="EOF", p=2, k=2):
     """two sample dimensions: fitted on (t1,t2) grid, new data on another grid"""
     X, dim, fdims = M.make_input(B, "multiindex", 4, p, False, {})
@@ -185,6 +195,7 @@ def configs(tier):
     add("h_single", "EOF|normalized|disjoint", cls="EOF", labels="disjoint", normalized=True)
     add("h_single", "EOF|m1|disjoint", cls="EOF", labels="disjoint", m=1)
     add("h_multiindex", "EOF|two sample dims")
+    add("h_index_kind_mismatch", "EOF|fit MultiIndex sample, new plain index")
     add("h_missing_new", "EOF|new data: repeated labels + one missing sample", labels=(100, 100, 101), missing=(1,))
     add("h_missing_new", "EOF|new data: unique labels + first sample missing", labels=(100, 101, 102), missing=(0,))
     add("h_missing_new", "EOF|new data: repeated labels + missing duplicate last", labels=(5, 6, 6), missing=(2,))
